@@ -41,6 +41,15 @@ EQ += [
 EQ += [
     ("def f(y, n):\n    return y >= 0 and y < n\n", "def f(y, n):\n    return 0 <= y < n\n"),
 ]
+EQ += [
+    # an access path held in a variable and written out again before anything can have changed it
+    ("def f(self, n):\n    r = self.results\n    for i in range(len(self.results.c)):\n        g(r.c[i])\n",
+     "def f(self, n):\n    r = self.results\n    for i in range(len(r.c)):\n        g(r.c[i])\n"),
+]
+EQ += [
+    ("def f(m, k):\n    if len(m) >= k:\n        m = m.opt()\n    else:\n        raise ValueError('few')\n    return g(m)\n",
+     "def f(m, k):\n    enough = len(m) >= k\n    if not enough:\n        raise ValueError('few')\n    m = m.opt()\n    return g(m)\n"),
+]
 NE = [
     # a read moved across a write
     ("def f(a, i):\n    x = a[i]\n    a[i] = 0\n    return x\n", "def f(a, i):\n    a[i] = 0\n    x = a[i]\n    return x\n"),
@@ -88,4 +97,7 @@ NE = [
     ("def f(c):\n    m = g(c)\n    k(m)\n    m = h(m)\n    return m\n", "def f(c):\n    k(g(c))\n    m = h(g(c))\n    return m\n"),
     ("def f(y, n):\n    return 0 <= y < n\n", "def f(y, n):\n    return 0 <= y <= n\n"),
     ("def f(y, n):\n    return 0 < y < n\n", "def f(y, n):\n    return 0 > y < n\n"),
+    # ... but not after a statement that may have re-bound it
+    ("def f(self):\n    r = self.results\n    self.reset()\n    g(r)\n    return self.results.c\n",
+     "def f(self):\n    r = self.results\n    self.reset()\n    g(r)\n    return r.c\n"),
 ]
